@@ -57,7 +57,7 @@ class Rec:
         ep = self.d.ep[self.side]
         k = len(self.points)
         img = os.path.join(self.tmp, f"p{k}.db")
-        for suf in ("", "-journal"):
+        for suf in ("", "-journal", "-wal", "-shm"):
             if os.path.exists(self.path + suf):
                 shutil.copyfile(self.path + suf, img + suf)
         link = self.d.w.link
@@ -75,7 +75,7 @@ class Runner:
         self.tmp = tmpdir
         self.gen = 0
         self.path = os.path.join(tmpdir, "x0.db")
-        for suf in ("", "-journal"):
+        for suf in ("", "-journal", "-wal", "-shm"):
             if os.path.exists(self.path + suf):
                 os.unlink(self.path + suf)
         crashdb.install()
@@ -249,7 +249,7 @@ class Runner:
             n_left = rec.written0 + max(0, p["fifo"] - rec.fifo0) if link.alive or True else 0
             self.note_left(upto=n_left)
         newfile = os.path.join(self.tmp, f"x{self.restarts + 1}.db")
-        for suf in ("", "-journal"):
+        for suf in ("", "-journal", "-wal", "-shm"):
             if os.path.exists(newfile + suf):
                 os.unlink(newfile + suf)
             if os.path.exists(p["img"] + suf):
